@@ -117,3 +117,14 @@ def tier1_problems(tier, rng):
     # malformed: a clue list shorter than the board (IndexError in the clue loops)
     yield {"h": 2, "w": 2, "blocks": [[[0, 0], [0, 1], [1, 0], [1, 1]]], "rows": [1], "cols": [-1, -1]}
     yield {"h": 2, "w": 3, "blocks": [[[0, 0], [0, 1], [0, 2], [1, 0], [1, 1], [1, 2]]], "rows": [-1, 2], "cols": [0, 1]}
+
+
+def big(tier, rng):
+    """5x5 / 4x6 / 6x4 boards with 3-4 tanks and 2 x N boards with long tanks (every grid the solver admits, up to the
+    cap, is checked against the rules)"""
+    th = tier == "thorough"
+    for (h, w) in [(5, 5), (4, 6), (6, 4), (2, 21), (2, 24)]:
+        for _ in range(10 if th else 3):
+            blocks = L.random_rooms(rng, h, w, rng.choice([3, 4]))
+            for (rows, cols) in _clues(rng, h, w, 1)[1:]:
+                yield {"h": h, "w": w, "blocks": blocks, "rows": rows, "cols": cols}
